@@ -131,6 +131,18 @@ def check(ctx):
         for f in ("%.40f", "%.80f", "%.100e", "%.60g", "%#.70g", "%200.50f", "%-120.30e", "%0100f"):
             script.append("Pd %s n n %s" % (fmt([ord(c) for c in f]), fmt(dbits(x)))); n += 1
         script.append("R")
+    # large values x large precisions x widths beyond the text x every conversion and flag: %g in plain style with dozens of integer
+    # digits (trailing integer zeros), %f / %e of the same values; padding must still make exactly the requested width
+    script.append("R")
+    for x in (1e41, 1.5e45, 2.0 ** 150, 1e60, 3e99, 1e100, 1.7976931348623157e308, 2.0 ** 200 + 2.0 ** 180):
+        for cv in "gGfeE":
+            for p in (42, 50, 70, 100, 120, 310):
+                if cv in "gG" and p < 308 and 10.0 ** p <= x: continue       # exponent style there (covered elsewhere)
+                for w in (50, 60, 80, 130, 330):
+                    for fl in ("", "#", "-", "0", "+", " #", "-#"):
+                        if ctx.rng.random() < (1.0 if ctx.thorough else 0.12):
+                            f = "%" + fl + str(w) + "." + str(p) + cv
+                            script.append("Pd %s n n %s" % (fmt([ord(c) for c in f]), fmt(dbits(x)))); n += 1
     # widths and precisions around and beyond the 8-bit boundary
     script.append("R")
     for x in (0.0, 1.5, -2.25, 1e100, 123456.789, 5e-324):
